@@ -1,0 +1,117 @@
+//go:build verif
+
+package app
+
+// Add-only hooks for the verification harness of property C15 (/verif). Thin exported wrappers,
+// no change of behaviour. Only compiled with -tags verif.
+
+import (
+	"io/fs"
+	"log/slog"
+	"sort"
+)
+
+// VerifC15Seg is one row of a loaded segment table (including the field that is not cached).
+type VerifC15Seg struct {
+	StartTime       uint64
+	EndTime         uint64
+	Nr              uint32
+	CommonSampleDur uint32
+}
+
+// VerifC15Rep is a copy of the data fields of a loaded RepData.
+type VerifC15Rep struct {
+	ID                     string
+	ContentType            string
+	Codecs                 string
+	MpdTimescale           int
+	MediaTimescale         int
+	InitURI                string
+	MediaURI               string
+	Segments               []VerifC15Seg
+	DefaultSampleDuration  uint32
+	HasConstantSampleDur   bool
+	ConstantSampleDuration uint32
+	PreEncrypted           bool
+	HasInit                bool
+	HasEncData             bool
+}
+
+// VerifC15Asset is a copy of the data fields of a registered asset.
+type VerifC15Asset struct {
+	AssetPath    string
+	MPDs         []string // sorted
+	SegmentDurMS int
+	LoopDurMS    int
+	RefRep       string        // "" if not set
+	Reps         []VerifC15Rep // sorted by ID
+}
+
+func verifC15Dump(am *assetMgr) []VerifC15Asset {
+	paths := make([]string, 0, len(am.assets))
+	for p := range am.assets {
+		paths = append(paths, p)
+	}
+	sort.Strings(paths)
+	out := make([]VerifC15Asset, 0, len(paths))
+	for _, p := range paths {
+		a := am.assets[p]
+		va := VerifC15Asset{AssetPath: a.AssetPath, SegmentDurMS: a.SegmentDurMS, LoopDurMS: a.LoopDurMS}
+		for name := range a.MPDs {
+			va.MPDs = append(va.MPDs, name)
+		}
+		sort.Strings(va.MPDs)
+		if a.refRep != nil {
+			va.RefRep = a.refRep.ID
+		}
+		ids := make([]string, 0, len(a.Reps))
+		for id := range a.Reps {
+			ids = append(ids, id)
+		}
+		sort.Strings(ids)
+		for _, id := range ids {
+			r := a.Reps[id]
+			vr := VerifC15Rep{ID: r.ID, ContentType: r.ContentType, Codecs: r.Codecs, MpdTimescale: r.MpdTimescale,
+				MediaTimescale: r.MediaTimescale, InitURI: r.InitURI, MediaURI: r.MediaURI,
+				DefaultSampleDuration: r.DefaultSampleDuration, PreEncrypted: r.PreEncrypted,
+				HasInit: r.initSeg != nil, HasEncData: r.encData != nil}
+			if r.ConstantSampleDuration != nil {
+				vr.HasConstantSampleDur = true
+				vr.ConstantSampleDuration = *r.ConstantSampleDuration
+			}
+			for _, s := range r.Segments {
+				vr.Segments = append(vr.Segments, VerifC15Seg{s.StartTime, s.EndTime, s.Nr, s.CommonSampleDur})
+			}
+			va.Reps = append(va.Reps, vr)
+		}
+		out = append(out, va)
+	}
+	return out
+}
+
+// VerifC15Assets returns the assets registered in a server (after discoverAssets), sorted by path.
+func VerifC15Assets(s *Server) []VerifC15Asset {
+	return verifC15Dump(s.assetMgr)
+}
+
+// VerifC15Discover runs newAssetMgr + discoverAssets over an arbitrary file system and returns the
+// registered assets and discoverAssets' error.
+func VerifC15Discover(vodFS fs.FS, repDataDir string, writeRepData bool, logger *slog.Logger) ([]VerifC15Asset, error) {
+	am := newAssetMgr(vodFS, repDataDir, writeRepData)
+	err := am.discoverAssets(logger)
+	return verifC15Dump(am), err
+}
+
+// VerifC15LoadAssetOnly runs newAssetMgr + loadAsset for the given MPD paths (in order) without
+// the consolidation step, and returns the registered (possibly partially filled) assets and the
+// error message of each loadAsset call ("" = nil).
+func VerifC15LoadAssetOnly(vodFS fs.FS, repDataDir string, writeRepData bool, logger *slog.Logger, mpdPaths []string) ([]VerifC15Asset, []string) {
+	am := newAssetMgr(vodFS, repDataDir, writeRepData)
+	errs := make([]string, len(mpdPaths))
+	for i, p := range mpdPaths {
+		if err := am.loadAsset(logger, p); err != nil {
+			errs[i] = err.Error()
+		}
+	}
+	return verifC15Dump(am), errs
+}
